@@ -1,9 +1,9 @@
 package main
 
 import (
+	"fmt"
 	"go/ast"
 	"go/constant"
-	"fmt"
 	"go/token"
 	"go/types"
 
@@ -549,4 +549,46 @@ func VarargElems(v ssa.Value) []ssa.Value {
 		res[i] = v
 	}
 	return res
+}
+
+// CheckErrPropagated: the error result (index idx) of call cc in fn is tested, and on
+// its non-nil edge no success return of fn is reachable. A discarded error is a violation.
+func (c *Ctx) CheckErrPropagated(construct string, fn *ssa.Function, cc ssa.CallInstruction, idx int, what string) bool {
+	c.touch(fn)
+	only := func(ci ssa.CallInstruction) bool { return ci == cc }
+	failed := Not(NilRes(what+" ok", idx, only))
+	okProp, found := true, 0
+	var path []*ssa.BasicBlock
+	for _, b := range fn.Blocks {
+		for si := range b.Succs {
+			if AtomEdges(failed)(b, si) {
+				found++
+				r := ReachQ{Fn: fn, From: &Loc{b.Succs[si], -1}, Sink: IsSuccessReturn}.Run()
+				if r.Found {
+					okProp = false
+					path = r.Path
+				}
+			}
+		}
+	}
+	if found == 0 {
+		// `return f(...)`: the error is the caller's own result
+		if v := cc.Value(); v != nil {
+			for _, r := range ReturnsOf(fn) {
+				for _, res := range r.Results {
+					if cc2, i, ok := CallResult(res); ok && cc2 == cc && i == idx {
+						c.Holds(construct, cc.Pos(), "the error of "+what+" is returned as is")
+						return true
+					}
+					if res == ssa.Value(v) {
+						c.Holds(construct, cc.Pos(), "the result of "+what+" is returned as is")
+						return true
+					}
+				}
+			}
+		}
+		c.Violated(construct, cc.Pos(), "the error returned by "+what+" is never tested in "+SSAFuncName(fn)+": a refusal is silently dropped")
+		return false
+	}
+	return c.Check(okProp, construct, cc.Pos(), "a refusal by "+what+" fails "+SSAFuncName(fn), SSAFuncName(fn)+" can succeed although "+what+" refused: "+c.P.PathString(path))
 }
